@@ -976,6 +976,9 @@ structure Patch where
   /-- mergo verdicts for the apply option `withMergeOptions(toFieldPath, policy.mergeOptions)` this
   patch contributes when its composed resource already exists (PTComposer.Compose, merge.go) -/
   applyOrc : List Orc := []
+  /-- Patch.PatchSetName: the patch set a patch of type PatchSet stands for (inlined by
+  ComposedTemplates before anything is rendered; Model/C10World.lean) -/
+  setName : Option String := none
   deriving Repr, Inhabited
 
 /-- Patch.GetType -/
